@@ -68,6 +68,18 @@ def check_plan(res, rng, plan, hows, tmp):
                     res.violation(key + ":original-changed", "original answers differently after being dumped (%s at %s)" % (how, point),
                                   {**case, "point": point, "how": how})
                     return
+        # an updated index (update() always builds a forest, whatever tree_init says) round-trips like any other
+        if not compressed and not kind.startswith("csr"):
+            U, _ = api.gen_dataset(rng, metric, kind, 12, dim)
+            idx.update(xs_fresh=U)
+            for how in hows:
+                loaded = roundtrips(idx, how, tmp)
+                a = idx.query(Q, k=5, epsilon=0.1); b = loaded.query(Q, k=5, epsilon=0.1)
+                res.case((metric, kind, compressed, tree_init, "updated", how), True); res.count("at_updated"); res.traces += 1
+                if not same(a, b):
+                    res.violation(key + ":answers-differ", "index dumped (%s) after update() answers differently once loaded (tree_init=%s)"
+                                  % (how, tree_init), {**case, "point": "updated", "how": how})
+                    return
         # a second generation: dump the loaded index again
         l2 = roundtrips(roundtrips(idx, hows[0], tmp), hows[-1], tmp)
         if not same(l2.query(Q, k=5), idx.query(Q, k=5)):
@@ -138,8 +150,9 @@ def run(res, tier, seed, search):
     if tier == "quick" and not search:
         k = 3
         start = (seed * k) % len(PLANS)
-        fixed = [("cosine", "csr", False, True), ("bit_hamming", "bits", False, True)]     # sparse surrogate+correction; bit trees
-        plans = fixed + [pl for pl in [PLANS[(start + i) % len(PLANS)] for i in range(k)] if pl not in fixed][:2]
+        fixed = [("cosine", "csr", False, True), ("bit_hamming", "bits", False, True),     # sparse surrogate+correction; bit trees
+                 ("euclidean", "dense32", False, False)]                                    # no tree initialisation, then update()
+        plans = fixed + [pl for pl in [PLANS[(start + i) % len(PLANS)] for i in range(k)] if pl not in fixed][:1]
         hows = ["pickle%d" % pickle.HIGHEST_PROTOCOL, "joblib"]
     else:
         plans = PLANS
